@@ -19,7 +19,7 @@
     F11  `ambiguity_normalised_counterexample` a constant clipped ambiguity map normalises to NaN
     F11b `indicator_two_dots_counterexample`   a step name with two dots gets no suffix
 -/
-import PandoraModel.Lemmas.C12Std
+import PandoraModel.Lemmas.C12Fix
 import PandoraModel.Generated.Confidence
 
 namespace Pandora.C12
@@ -44,9 +44,14 @@ theorem stems_from_source :
 theorem prefix_from_source : Generated.Confidence.bandPrefix = confPrefix := by decide
 
 /-- the rule found in `cost_volume_confidence_run` is the one `indicatorOf` implements:
-    `indicator = ""; if len(step.split(".")) == 2: indicator = "." + step.split(".")[1]` -/
+    `indicator = ""; if len(step.split(".")) == 2: indicator = "." + step.split(".")[1]`
+    — or the same with `split(".", 1)`, which is the repair proposed in proposed_fixes/C12-indicator-suffix.diff
+    (it differs only on names with two dots or more, where it yields the specification's suffix; the
+    correspondence accepts exactly these two behaviours, and `indicatorOf` is to be replaced by
+    `Spec.suffixOf` once the repair is merged) -/
 theorem indicator_rule_from_source :
-    Generated.Confidence.indicatorRule = ⟨['.'], none, 2, ['.'], 1, []⟩ := by decide
+    Generated.Confidence.indicatorRule = ⟨['.'], none, 2, ['.'], 1, []⟩
+    ∨ Generated.Confidence.indicatorRule = ⟨['.'], some 1, 2, ['.'], 1, []⟩ := by decide
 
 /-! ### 1. Well-formedness (explicit, decidable) -/
 
